@@ -273,6 +273,32 @@ type vf18Env struct {
 	chainID string
 	nVals   int
 	blkH    uint64
+	lastAdv []vf18Adv // the last accepted non-valid-stream messages (for the state-machine probe)
+	clock   int64     // vote time stamps of the simulated validators: strictly increasing, like real clocks
+}
+
+// signVote signs a vote of simulated validator idx with a strictly increasing time stamp (vfNet.signVote
+// derives the time from height*10+round, which runs backwards once a height needs more than 10 rounds; with
+// 3/4 of the power that would make the median block time non-monotonic: a harness artefact).
+func (e *vf18Env) signVote(idx int, h uint64, r uint32, typ kproto.SignedMsgType, id types.BlockID, valIndex uint32) *types.Vote {
+	e.clock++
+	v := &types.Vote{ValidatorAddress: e.net.addrs[idx], ValidatorIndex: valIndex, Height: h, Round: r,
+		Timestamp: time.Unix(1700001000+e.clock, 0), Type: typ, BlockID: id}
+	p := v.ToProto()
+	if err := types.NewDefaultPrivValidator(e.net.keys[idx]).SignVote(e.chainID, p); err != nil {
+		return nil
+	}
+	v.Signature = p.Signature
+	return v
+}
+
+// vf18Adv is one adversarial message that passed decode+ValidateBasic and was handed to a handler.
+type vf18Adv struct {
+	ch     byte
+	kind   string
+	stream string
+	hr     string // node height/round/step when it arrived
+	hex    string
 }
 
 func vf18NewEnv(o *vfOut, r *vfRand) (*vf18Env, error) {
@@ -432,6 +458,17 @@ func (e *vf18Env) receive(ch byte, peer *vf18Peer, b []byte, stream string) {
 	o.Stat("recv/" + vf18ChName[ch] + "/" + stream)
 	if decoded {
 		o.Stat("accepted/" + stream + "/" + kind)
+		if stream != "valid" && stream != "health" && stream != "prime" {
+			h := vfHex(b)
+			if len(h) > 500 {
+				h = h[:500] + "..."
+			}
+			cs := e.node.cs
+			e.lastAdv = append(e.lastAdv, vf18Adv{ch, kind, stream, fmt.Sprintf("%d/%d/%v", cs.Height, cs.Round, cs.Step), h})
+			if len(e.lastAdv) > 8 {
+				e.lastAdv = e.lastAdv[len(e.lastAdv)-8:]
+			}
+		}
 	} else {
 		o.Stat("rejected/" + stream)
 		if ok && peer.stops == stops {
@@ -584,7 +621,7 @@ func (e *vf18Env) validMsgs(r *vfRand) []struct {
 		if r.Bool() || e.blk == nil {
 			vid = types.BlockID{}
 		}
-		if v := e.net.signVote(who, h, rd, kproto.SignedMsgType(1+r.Intn(2)), vid, e.chainID, vi); v != nil {
+		if v := e.signVote(who, h, rd, kproto.SignedMsgType(1+r.Intn(2)), vid, vi); v != nil {
 			out = append(out, cm{VoteChannel, &VoteMessage{v}})
 		}
 	}
@@ -776,6 +813,206 @@ func (e *vf18Env) roundtrip(m Message) {
 	e.o.Stat("roundtrip/" + kind)
 }
 
+// futMsg builds a STRUCTURALLY VALID vote / proposal / block part for a future (or past) round or height:
+// rounds R+1, R+2, R+3, R+5 and huge, heights H-1, H, H+1, 0; with a garbage signature, or with a valid
+// signature of ONE simulated validator (validator 3 = 1/4 of the power, the Byzantine budget of the fault
+// model), naming a real validator or a non-validator.
+func (e *vf18Env) futMsg(r *vfRand) (byte, []byte, string) {
+	cs := e.node.cs
+	H, R := cs.Height, cs.Round
+	h := []uint64{H, H, H, H, H, H - 1, H + 1, 0}[r.Intn(8)]
+	rd := []uint32{R + 1, R + 2, R + 2, R + 3, R + 3, R + 5, R, 0, 1<<31 - 1, 1 << 31, 1<<32 - 2, 1<<32 - 1}[r.Intn(12)]
+	id := e.blockID()
+	switch r.Intn(4) {
+	case 0:
+		id = types.BlockID{}
+	case 1:
+		id = types.BlockID{Hash: cmn.BytesToHash(r.Bytes(32)), PartsHeader: types.PartSetHeader{Total: uint32(1 + r.Intn(3)), Hash: cmn.BytesToHash(r.Bytes(32))}}
+	}
+	validSig := r.Chance(40)
+	tag := "badsig"
+	if validSig {
+		tag = "val3sig"
+	}
+	switch r.Intn(5) {
+	case 0, 1, 2: // vote
+		typ := kproto.SignedMsgType(1 + r.Intn(2))
+		who := 1 + r.Intn(3)
+		if validSig {
+			who = 3
+		}
+		vi, _ := vfValIndex(cs, e.net.addrs[who])
+		var v *types.Vote
+		if validSig {
+			v = e.signVote(who, h, rd, typ, id, vi)
+		}
+		if v == nil {
+			v = &types.Vote{ValidatorAddress: e.net.addrs[who], ValidatorIndex: vi, Height: h, Round: rd, Timestamp: time.Unix(1700000000, 0),
+				Type: typ, BlockID: id, Signature: r.Bytes(65)}
+			switch r.Intn(6) {
+			case 0: // not a validator at all
+				v.ValidatorAddress = cmn.BytesToAddress(r.Bytes(20))
+			case 1:
+				v.ValidatorIndex = uint32(e.nVals + r.Intn(3))
+			}
+		}
+		return VoteChannel, vf18Enc(&VoteMessage{v}), fmt.Sprintf("fut-vote-%s", tag)
+	case 3: // proposal
+		if id.IsZero() {
+			id = e.blockID()
+		}
+		pol := []uint32{0, 0, rd - 1, rd, rd + 1, 1<<32 - 1}[r.Intn(6)]
+		prop := types.NewProposal(h, rd, pol, id)
+		prop.Timestamp = time.Unix(1700000000+int64(h), 0)
+		prop.Signature = r.Bytes(65)
+		if validSig {
+			pp := prop.ToProto()
+			if types.NewDefaultPrivValidator(e.net.keys[3]).SignProposal(e.chainID, pp) == nil {
+				prop.Signature = pp.Signature
+			}
+		}
+		return DataChannel, vf18Enc(&ProposalMessage{prop}), fmt.Sprintf("fut-proposal-%s", tag)
+	default: // block part of the current valid block, for another height/round
+		if e.parts == nil {
+			return StateChannel, vf18Enc(&HasVoteMessage{Height: h, Round: rd, Type: kproto.PrevoteType, Index: uint32(r.Intn(e.nVals))}), "fut-hasvote"
+		}
+		return DataChannel, vf18Enc(&BlockPartMessage{Height: h, Round: rd, Part: e.parts.GetPart(r.Intn(int(e.parts.Total())))}), "fut-part"
+	}
+}
+
+// smVotes delivers valid votes of the simulated validators `who` straight to the state machine.
+func (e *vf18Env) smVotes(who []int, h uint64, rd uint32, typ kproto.SignedMsgType, id types.BlockID) {
+	cs := e.node.cs
+	for _, w := range who {
+		vi, ok := vfValIndex(cs, e.net.addrs[w])
+		if !ok {
+			continue
+		}
+		if v := e.signVote(w, h, rd, typ, id, vi); v != nil {
+			cs.handleMsg(msgInfo{&VoteMessage{v}, "smprobe"})
+			e.net.drain()
+		}
+	}
+}
+
+// smProbe is the STATE-MACHINE HEALTH PROBE: some damage of a peer message shows only when the state machine
+// moves on (e.g. a catch-up round opened by a forged future-round vote that a later SetRound trips over). After
+// a batch of adversarial messages the node is driven, with valid traffic only, through timeouts
+// (propose -> prevote -> prevote-wait -> precommit -> precommit-wait -> next round) for two rounds, a +2/3-any
+// round skip, and (when commit is set) a proposal + polka + commit into the next height; all under recover.
+func (e *vf18Env) smProbe(commit bool) {
+	if e.dead {
+		return
+	}
+	o := e.o
+	cs := e.node.cs
+	ch, kind := "none", "none"
+	for i := len(e.lastAdv) - 1; i >= 0; i-- { // prefer the last one that went to the state machine
+		a := e.lastAdv[i]
+		if a.kind == "Vote" || a.kind == "Proposal" || a.kind == "BlockPart" {
+			ch, kind = vf18ChName[a.ch], a.kind
+			break
+		}
+	}
+	if ch == "none" && len(e.lastAdv) > 0 {
+		a := e.lastAdv[len(e.lastAdv)-1]
+		ch, kind = vf18ChName[a.ch], a.kind
+	}
+	phase := "start"
+	h0, r0 := cs.Height, cs.Round
+	detail := func() string {
+		d := fmt.Sprintf("probe phase=%s node was at %d/%d now %d/%d/%v; last accepted adversarial messages (oldest first):", phase, h0, r0, cs.Height, cs.Round, cs.Step)
+		for _, a := range e.lastAdv {
+			d += fmt.Sprintf(" [%s %s %s at %s %s]", vf18ChName[a.ch], a.kind, a.stream, a.hr, a.hex)
+		}
+		return d
+	}
+	fire := func() {
+		e.net.fireTimeout(e.node, true)
+		e.net.drain()
+	}
+	all, two := []int{1, 2, 3}, []int{1, 2}
+	ok := e.guard("state-machine-after-peer-message/"+ch+"/"+kind, detail, func() {
+		e.net.drain()
+		H := cs.Height
+		// A. two round changes by timeouts
+		for rc := 0; rc < 2 && cs.Height == H; rc++ {
+			r := cs.Round
+			phase = fmt.Sprintf("timeouts-round-%d", r)
+			for k := 0; k < 3 && cs.Step < cstypes.RoundStepPrevote; k++ {
+				fire() // new height -> new round -> propose -> (timeout) prevote
+			}
+			e.smVotes(two, H, r, kproto.PrevoteType, types.BlockID{}) // +2/3 any -> prevote wait
+			fire()                                                     // -> precommit
+			e.smVotes(two, H, r, kproto.PrecommitType, types.BlockID{}) // +2/3 any -> precommit wait
+			fire()                                                       // -> next round
+			if cs.Height == H && cs.Round > r {
+				o.Stat("sm-probe/round-change-by-timeout")
+			}
+		}
+		// B. round skip on +2/3 any prevotes of a later round
+		if cs.Height == H {
+			r := cs.Round
+			phase = fmt.Sprintf("round-skip-to-%d", r+2)
+			e.smVotes(all, H, r+2, kproto.PrevoteType, types.BlockID{})
+			if cs.Height == H && cs.Round == r+2 {
+				o.Stat("sm-probe/round-skip")
+			}
+		}
+		// C. a valid proposal, polka and commit: height change
+		if commit && cs.Height == H {
+			r := cs.Round
+			phase = fmt.Sprintf("commit-in-round-%d", r)
+			for k := 0; k < 2 && cs.Step < cstypes.RoundStepPropose; k++ {
+				fire()
+			}
+			if cs.ProposalBlock == nil {
+				pa := cs.Validators.GetProposer().Address
+				if idx, okp := e.net.valIdx[pa]; okp && idx != 0 {
+					if blk, parts := e.net.byzBlock(e.node, idx, 0); blk != nil {
+						for _, mi := range e.net.byzProposalMsgs(idx, H, r, 0, blk, parts, e.chainID) {
+							cs.handleMsg(msgInfo{mi.Msg, "smprobe"})
+							e.net.drain()
+						}
+					}
+				}
+			}
+			if cs.ProposalBlock != nil && cs.ProposalBlockParts != nil && cs.ProposalBlockParts.IsComplete() {
+				id := types.BlockID{Hash: cs.ProposalBlock.Hash(), PartsHeader: cs.ProposalBlockParts.Header()}
+				e.smVotes(all, H, r, kproto.PrevoteType, id)
+				e.smVotes(all, H, r, kproto.PrecommitType, id)
+			}
+			if cs.Height > H {
+				o.Stat("sm-probe/committed")
+				phase = "new-height"
+				fire() // leave NewHeight at the new height
+			} else {
+				o.Stat("sm-probe/commit-not-reached")
+			}
+		}
+	})
+	o.Stat("sm-probes")
+	if !ok {
+		e.dead = true // rebuild the node: its state is not trustworthy after a panic
+	}
+}
+
+// lastCommitProbe: a precommit for height H-1 (height 0 on a fresh chain) while the node waits in step
+// NewHeight goes to cs.LastCommit.AddVote; at the initial height LastCommit is a nil vote set.
+func (e *vf18Env) lastCommitProbe(r *vfRand) {
+	cs := e.node.cs
+	if cs.Step != cstypes.RoundStepNewHeight {
+		return
+	}
+	peer := vf18NewPeer("lc")
+	e.conR.InitPeer(peer)
+	vi, _ := vfValIndex(cs, e.net.addrs[1])
+	v := &types.Vote{ValidatorAddress: e.net.addrs[1], ValidatorIndex: vi, Height: cs.Height - 1, Round: 0, Timestamp: time.Unix(1700000000, 0),
+		Type: kproto.PrecommitType, BlockID: types.BlockID{}, Signature: r.Bytes(65)}
+	e.o.Stat(fmt.Sprintf("last-commit-probe/lastCommitNil=%v", cs.LastCommit == nil))
+	e.receive(VoteChannel, peer, vf18Enc(&VoteMessage{v}), "past-height")
+}
+
 // step moves the node into another step by firing its pending timeouts.
 func (e *vf18Env) step(r *vfRand) {
 	for k := r.Intn(3); k > 0; k-- {
@@ -816,7 +1053,7 @@ func TestVerifC18Receive(t *testing.T) {
 	chans := []byte{StateChannel, DataChannel, VoteChannel, VoteSetBitsChannel}
 	for i := 0; i < n; i++ {
 		r := vfFork(seed, uint64(i))
-		if e == nil || e.dead || i%40 == 0 {
+		if e == nil || e.dead || i%24 == 0 {
 			if e != nil {
 				e.conR.Stop()
 			}
@@ -827,7 +1064,14 @@ func TestVerifC18Receive(t *testing.T) {
 			if i == 0 && seed%1000 == 0 { // one shard only: the probe costs 512 MB
 				e.f18Probe()
 			}
+			e.lastCommitProbe(r) // fresh node: height = initial height, step NewHeight, LastCommit nil
+		} else if e.node.cs.Step == cstypes.RoundStepNewHeight && r.Chance(50) {
+			e.lastCommitProbe(r) // after a commit: LastCommit is the previous height's precommits
 		}
+		if e.dead {
+			continue
+		}
+		e.lastAdv = nil
 		e.step(r)
 		peer := vf18NewPeer(fmt.Sprintf("p%d", i))
 		withState := !r.Chance(15)
@@ -853,7 +1097,11 @@ func TestVerifC18Receive(t *testing.T) {
 			var ch byte
 			var b []byte
 			stream := ""
-			switch s := r.Intn(10); {
+			switch s := r.Intn(13); {
+			case s >= 10: // structurally valid traffic for future rounds / other heights
+				ch, b, stream = e.futMsg(r)
+				o.Stat("fut/" + stream)
+				stream = "future"
 			case s == 0: // random bytes
 				ch = chans[r.Intn(4)]
 				b = r.Bytes(r.Pick(0, 1, 2, 5, 20, 100, 300, r.Intn(2000)))
@@ -896,6 +1144,13 @@ func TestVerifC18Receive(t *testing.T) {
 			if k%10 == 9 && withState {
 				e.gossip(peer, stream)
 			}
+			if k == 14 && withState && !e.dead {
+				e.smProbe(false)
+				valid = e.validMsgs(r)
+			}
+		}
+		if withState && !e.dead {
+			e.smProbe(r.Chance(60))
 		}
 		if withState && !e.dead {
 			e.gossip(peer, "end-of-case")
